@@ -84,6 +84,10 @@ inductive COp where
   | lost (os : Bool)
   /-- time passes -/
   | tick (d : Nat)
+  /-- the transport starts closing (peer FIN read); `connection_lost` follows with `lost` -/
+  | beginClose
+  /-- the transport will hold `connection_lost` back after a `transport.close()` -/
+  | hold
 
 structure CS (P : Parser) where
   c : Conn P
@@ -122,6 +126,8 @@ def cstep (g : CCfg) (s : CS P) : COp → CS P
     if s.c.owner.isSome then { s with c := s.c.release s.now g.forceClose explicit } else s
   | .lost os => { s with c := (s.c.connectionLost os).1 }
   | .tick d => { s with now := s.now + d }
+  | .beginClose => { s with c := s.c.beginClose }
+  | .hold => { s with c := { s.c with holdLost := true } }
 
 def crun (g : CCfg) (s : CS P) (ops : List COp) : CS P := ops.foldl (cstep g) s
 
@@ -317,9 +323,12 @@ theorem ownInv_dataReceived (c : Conn P) (now : Nat) (fc : Bool) (data : Bytes) 
       · -- error
         have h2 : OwnInv (c1.setException .http) := h1.frame (frame_setException _ _)
         split
-        · have hf3 := frame_lostCore ({ c1.setException .http with connected := false } : Conn P) false
-          have h2' : OwnInv ({ c1.setException .http with connected := false } : Conn P) := h2
-          exact h2'.frame hf3
+        · split
+          · -- connection_lost held back by the transport
+            exact h2
+          · have hf3 := frame_lostCore ({ c1.setException .http with connected := false } : Conn P) false
+            have h2' : OwnInv ({ c1.setException .http with connected := false } : Conn P) := h2
+            exact h2'.frame hf3
         · exact h2
       · -- pushMsgs
         have hc2 : OwnInv ({ c1 with upgraded := (P.feed s data).upgraded } : Conn P) := h1
@@ -412,5 +421,15 @@ theorem acqResult_ok (g : CCfg) (c : Conn P) (k : Key) (j now : Nat)
     split
     · rfl
     · next hf => rw [if_neg hf] at h; simp at h
+
+theorem frame_beginClose (c : Conn P) : Frame c c.beginClose := by
+  unfold Conn.beginClose
+  split <;> exact ⟨rfl, rfl, rfl, rfl, rfl, Or.inl rfl⟩
+
+theorem beginClose_not_connected (c : Conn P) : c.beginClose.connected = false := by
+  unfold Conn.beginClose
+  split
+  · rfl
+  · next h => simpa using h
 
 end Aio.C06
